@@ -95,30 +95,7 @@ func patchTouches(p *dyn.PatchM, spec pathmodel.Spec, prefix []string) (touches,
 func serverRequest(w *world, verb, uri, method, body string) (status int, respBody string, invoked int, crash string) {
 	sl := &slot{outcome: &dyn.Outcome{HasBatch: true}}
 	// whatever method is hit gets a benign outcome
-	sl.hook = func(inv *dyn.Invocation) *dyn.Outcome {
-		mi := dyn.FindMethod(S, inv.Call.Resource, inv.Call.Method)
-		switch {
-		case mi.Rest() == "create":
-			c := &dyn.CreatedM{Id: aval.Zero(S, *mi.KeyType)}
-			if mi.M.ReturnEntity {
-				c.Entity = aval.Zero(S, *mi.Entity)
-			}
-			return &dyn.Outcome{Created: c}
-		case mi.Rest() == "batch_create":
-			return &dyn.Outcome{HasBatchCr: true}
-		case mi.Rest() == "get":
-			return &dyn.Outcome{Entity: aval.Zero(S, *mi.Entity)}
-		case mi.Rest() == "partial_update" && mi.M.ReturnEntity:
-			return &dyn.Outcome{Entity: aval.Zero(S, *mi.Entity)}
-		case strings.HasPrefix(mi.Rest(), "batch_"):
-			return &dyn.Outcome{HasBatch: true}
-		case mi.M.Kind == "FINDER" || mi.Rest() == "get_all":
-			return &dyn.Outcome{HasElements: true}
-		case mi.M.Kind == "ACTION" && mi.M.Return != nil:
-			return &dyn.Outcome{Action: aval.Zero(S, *mi.M.Return)}
-		}
-		return &dyn.Outcome{}
-	}
+	sl.hook = benignHook
 	id := fmt.Sprintf("raw%d", w.nextID.Add(1))
 	w.slots.Store(id, sl)
 	defer w.slots.Delete(id)
